@@ -8,7 +8,7 @@ RULE = ("random histories of set_timeouts (1 us..1 h, changed, cleared), enable/
         "iteration with vnow >= idle_since+T while enabled, not suspended (and output pending for writes), never otherwise, direction "
         "disabled in the callback; non-trivial = a timeout fired on time or a transfer postponed a running deadline; distinct = hash of the script")
 STEPS = [
-    dict(flavor="asan", harness="h_bev2", args=["--mode", "timeout"], cases=dict(quick=2000, thorough=60000),
+    dict(flavor="asan", harness="h_bev2", args=["--mode", "timeout"], cases=dict(quick=2000, thorough=120000),
          timeout=dict(quick=600, thorough=3000)),
 ]
 REG = dict(
